@@ -53,7 +53,10 @@ def main():
     caps_all = [0] if tier == "quick" else [0, 1, 2]
     cases = []
     for e in entries:
-        cfgs = pe.configs_for(e, tier, rng, max_alt=1 if tier == "quick" else 4)
+        # entries with two or more periods: one alternative per relation class between them (buffer sizes, SyncPeriod
+        # and alignment Skips depend on which period is the longer one and by how much)
+        multi = len(e["params"] or []) >= 2
+        cfgs = pe.configs_for(e, tier, rng, max_alt=(4 if multi else 1) if tier == "quick" else (6 if multi else 4))
         for ci, cfg in enumerate(cfgs):
             caps = list(caps_all)
             if tier == "quick" and ci == 1:
@@ -218,7 +221,25 @@ def main():
         if not c.lens:
             continue
         if c.error:
+            # no model of this wiring: exit 2 for the model - a hang, crash or leak of the REAL runs is still a verdict
             machinery.append("%s: %s" % (c.key(), c.error))
+            for lv in c.lens:
+                real = c.real.get(tuple(lv))
+                if real is None:
+                    continue
+                replay = {"pipe": c.pipe, "cfg": c.cfg, "cap": c.cap, "lens": lv, "model": None}
+                cls = lens_class(lv)
+                if real.get("deadlock"):
+                    stuck = sorted({g["func"].split("/")[-1] + ":" + g["state"] for g in real.get("dump", []) if "indicator" in g["func"]})
+                    V.violation({"pipe": c.pipe, "symptom": "deadlock", "lens": cls},
+                                "%s lens=%s: the real pipeline hangs (Go runtime: all goroutines are asleep); parked: %s" % (c.key(), lv, stuck[:6]), replay)
+                elif real.get("crash"):
+                    V.violation({"pipe": c.pipe, "symptom": "crash", "lens": cls},
+                                "%s lens=%s: the real pipeline crashed: %s" % (c.key(), lv, real.get("stderr", "")[:300]), replay)
+                elif real.get("leaks"):
+                    lk = sorted({l["func"].split("/")[-1] + ":" + l["state"] for l in real["leaks"]})
+                    V.violation({"pipe": c.pipe, "symptom": "leak", "lens": cls},
+                                "%s lens=%s: %d goroutine(s) remain parked after every output was drained: %s" % (c.key(), lv, len(real["leaks"]), lk[:6]), replay)
             continue
         cov.add_tlc(c.tlc)
         cov.instances += 1
@@ -331,6 +352,8 @@ def main():
                 "tlc_runs": cov.tlc_runs, "all_interleavings_runs": cov.full_runs, "instances": cov.instances,
                 "pipelines": len(entries), "xma_unit_periods": sorted(periods), "units_verified": sorted(k[0] + str(k[1]) for k, v in units_ok.items() if v),
                 "exhaustive": False, "notes": cov.notes[:40], "machinery": machinery[:40], "known_findings_hit": V.hit}
+    # the commutation lemma behind the reduction, proved with the TLA+ proof system (spec/Commute.tla)
+    coverage["tlaps_commutation_lemma_obligations_proved"] = vlib.run_tlapm("Commute.tla")
     vlib.write_evidence(PID, "model_checking", coverage, time.time() - t0, len(V.new),
                         assumptions=["stage programs of Pipeline.tla follow helper/*.go (bound by C16 probes)",
                                      "networks too large for all interleavings are explored with the ample-set reduction, "
